@@ -32,6 +32,7 @@ impl TraitCodegen<'_> {
         trait_generics: &generics::TraitGenerics,
         supertraits: &Supertraits,
         trait_fns: &[TraitFn],
+        associated_types: &[AssociatedType],
         fn_input_mode: &FnInputMode<'_>,
     ) -> syn::Result<TokenStream> {
         let span = trait_ident.span();
@@ -73,7 +74,12 @@ impl TraitCodegen<'_> {
             fn_input_mode,
         };
 
-        let fn_defs = trait_fns.iter().map(|trait_fn| {
+        let fn_defs = trait_fns.iter().enumerate().map(|(index, trait_fn)| {
+            // The associated types that are declared right before this method
+            let types = associated_types
+                .iter()
+                .filter(|ty| ty.preceding_fns == index)
+                .map(|ty| &ty.item);
             let attrs = &trait_fn.attrs;
             let trait_fn_sig =
                 make_trait_fn_sig(&trait_fn.entrait_sig, self.sub_attributes, self.opts);
@@ -82,20 +88,27 @@ impl TraitCodegen<'_> {
                 // The desugared form of an `async fn` with a default body
                 Some(body) if trait_fn.originally_async && trait_fn_sig.asyncness.is_none() => {
                     quote! {
+                        #(#types)*
                         #(#attrs)*
                         #trait_fn_sig { async move #body }
                     }
                 }
                 Some(body) => quote! {
+                    #(#types)*
                     #(#attrs)*
                     #trait_fn_sig #body
                 },
                 None => quote! {
+                    #(#types)*
                     #(#attrs)*
                     #trait_fn_sig;
                 },
             }
         });
+        let trailing_types = associated_types
+            .iter()
+            .filter(|ty| ty.preceding_fns >= trait_fns.len())
+            .map(|ty| &ty.item);
 
         let params = trait_generics.trait_params();
         let trait_unsafety = &self.trait_unsafety;
@@ -118,9 +131,17 @@ impl TraitCodegen<'_> {
             #(#trait_sub_attributes)*
             #trait_visibility #trait_unsafety trait #trait_ident #params #supertraits #where_clause {
                 #(#fn_defs)*
+                #(#trailing_types)*
             }
         })
     }
+}
+
+/// An associated type of an entraited trait, and its position among the methods
+#[derive(Clone)]
+pub struct AssociatedType {
+    pub preceding_fns: usize,
+    pub item: syn::TraitItemType,
 }
 
 #[derive(Clone)]
